@@ -8,7 +8,7 @@ def unsafe_decode(string):
   return gfapy.Alignment(string, valid = True, version = "gfa1")
 
 def validate_encoded(string):
-  if not re.match(r"^(\*|([0-9]+[MIDNSHPX=])+)$", string):
+  if not re.match(r"^(\*|([0-9]+[MIDNSHPX=])+)\Z", string):
     raise gfapy.FormatError(
       "{} is not a valid GFA1 alignment\n".format(repr(string)) +
       "(it is not * and is not a CIGAR string (([0-9]+[MIDNSHPX=])+)")
